@@ -92,7 +92,7 @@ def work(ctx, tier):
         ctx.inc("sweep_scenarios")
     n = (9000 if tier == "quick" else 250000) // ctx.nshards
     for k in range(n):
-        sc = gen.rand_scenario(rng, p_special=0.08, specials=("abort", "nested_exh", "nested_open", "cancel", "kbd", "sysexit", "timeout", "timeout"), p_attempt_timeout=0.15, p_budget=0.3, p_handler=0.4, p_abort=0.15, ncalls=(1, 2), placements=(k % 5 == 0), p_exc_same=0.2, p_via_config=0.2, p_res_none=0.15)
+        sc = gen.rand_scenario(rng, p_special=0.08, specials=("abort", "nested_exh", "nested_open", "cancel", "kbd", "sysexit", "timeout", "timeout"), p_attempt_timeout=0.15, p_budget=0.3, p_handler=0.4, p_abort=0.15, ncalls=(1, 2), placements=(k % 5 == 0), p_exc_same=0.2, p_via_config=0.2, p_res_none=0.15, p_breaker=0.25)
         if k % 6 == 4:
             # a shutdown flag that goes up as soon as the run has reported its terminal event: what call() surfaces is already decided
             sc["poll"] = True
